@@ -19,6 +19,17 @@ text = ['## Appendix B – seeded changes and the checks that catch them', '',
         'the 164 tests green. "Caught by" = the check exits 1 with a VIOLATION line when run (quick tier) against the change;',
         '"quiet" = a related check that was also run and did not react (not every related property is actually broken by the change).',
         '', '| id | property | what it needs to manifest | caught by | quiet |', '|---|---|---|---|---|'] + rows + ['']
+ctl = []
+for p in sorted(glob.glob(os.path.join(VERIF, 'seeded', '*', 'control.json'))):
+    m = json.load(open(p))
+    loud = [c for c, r in m['results'].items() if r['exit'] != 0]
+    ctl.append('| %s | %s | %s |' % (m['id'], m['change'].replace('|', '\\|'),
+                                  'all 20 checks exit 0' if not loud else 'ALARM: ' + ', '.join(loud)))
+if ctl:
+    text += ['### Controls: behaviour-preserving refactorings', '',
+             'Written by independent sub-agents asked for a realistic refactoring that changes no observable behaviour (and to',
+             'falsify it themselves by differential testing). All twenty quick checks were run against each; none may react.',
+             '', '| id | change | result |', '|---|---|---|'] + ctl + ['']
 path = os.path.join(VERIF, 'DESIGN.md')
 s = open(path).read()
 marker = '## Appendix B – seeded changes'
